@@ -341,7 +341,9 @@ func Rotate(seq Sequence, n int) Sequence {
 
 	var ff FeatureSlice
 	for _, f := range seq.Features() {
-		f.Loc = f.Loc.Expand(0, n).Normalize(Len(seq))
+		// Expand from before the origin so that a between-site at the
+		// origin (0^1) is shifted along with everything else.
+		f.Loc = f.Loc.Expand(-1, n).Normalize(Len(seq))
 		ff = ff.Insert(f)
 	}
 
